@@ -18,7 +18,7 @@ def finalName (o : SaveOpts) (ss1 : SSt) (mp : Str) : Str :=
 /-- **no watermark: compression is left as it is** -/
 theorem C13_no_watermark_no_rename (o : SaveOpts) (ss1 : SSt) (mp : Str) (h : o.watermark = none) :
     (writeStep o ss1 mp).renamed = ss1.renamed ∧
-    ∃ text, (writeStep o ss1 mp).writes = ss1.writes ++ [.file mp text] := by
+    ∃ text sg, (writeStep o ss1 mp).writes = ss1.writes ++ [.file mp text sg] := by
   simp [writeStep, h]
 
 /-- **the watermark rule.** With a watermark, a rewritten Manifest changes its
@@ -28,30 +28,35 @@ theorem C13_no_watermark_no_rename (o : SaveOpts) (ss1 : SSt) (mp : Str) (h : o.
 theorem C13_watermark_step (o : SaveOpts) (ss1 : SSt) (mp : Str) (wm : Nat) (h : o.watermark = some wm) :
     let es' := if o.sort then stableSort (fun a b => entryLt a.2 b.2) (ss1.st.entriesOf mp) else ss1.st.entriesOf mp
     let text := dumpEntries false (es'.map (·.2))
-    let want := wantCompressed o.profile mp (hasEbuildEntry es') (utf8Len text) wm
+    let want := wantCompressed o.profile mp (hasEbuildEntry es') (uncSizeFor o (signFor ss1.st mp) text) wm
     let r := writeStep o ss1 mp
     ((compressedSuffix? mp).isSome = want →
-        r.renamed = ss1.renamed ∧ r.writes = ss1.writes ++ [.file mp text]) ∧
+        r.renamed = ss1.renamed ∧ ∃ sg, r.writes = ss1.writes ++ [.file mp text sg]) ∧
     ((compressedSuffix? mp).isSome ≠ want →
         ∃ newMp, r.renamed = ss1.renamed ++ [(mp, newMp)] ∧
-          r.writes = ss1.writes ++ [.file mp text, .file newMp text, .unlink mp] ∧
+          (∃ sg sg', r.writes = ss1.writes ++ [.file mp text sg, .file newMp text sg', .unlink mp]) ∧
           (want = true → newMp = mp ++ 46 :: o.format) ∧
           (want = false → newMp = mp.take (mp.length - (((compressedSuffix? mp).getD []).length + 1)))) := by
   intro es' text want r
+  have hr : r = writeStep o ss1 mp := rfl
+  simp only [writeStep, h] at hr
+  generalize hB : ((compressedSuffix? mp).isSome == _) = B at hr
+  have hBw : B = ((compressedSuffix? mp).isSome == want) := hB.symm
   constructor
   · intro heq
-    have : ((compressedSuffix? mp).isSome == want) = true := by simp [heq]
-    simp only [r, writeStep, h]
-    simp [es', text, want] at this ⊢
-    simp [this]
+    have : B = true := by rw [hBw]; simp [heq]
+    subst this
+    simp only [if_true] at hr
+    rw [hr]
+    exact ⟨rfl, _, rfl⟩
   · intro hne
-    have : ((compressedSuffix? mp).isSome == want) = false := by simpa using hne
-    simp only [r, writeStep, h]
-    simp [es', text, want] at this ⊢
-    simp only [this]
-    refine ⟨_, rfl, by simp, ?_, ?_⟩
-    · intro hw; change (wantCompressed _ _ _ _ _ = true) at hw; simp [hw]
-    · intro hw; change (wantCompressed _ _ _ _ _ = false) at hw; simp [hw]
+    have : B = false := by rw [hBw]; simpa using hne
+    subst this
+    simp only [Bool.false_eq_true, if_false] at hr
+    rw [hr]
+    refine ⟨_, rfl, ⟨_, _, by rw [List.append_assoc]; rfl⟩, ?_, ?_⟩
+    · intro hw; simp only [want, es', text] at hw; rw [if_pos hw]
+    · intro hw; simp only [want, es', text] at hw; rw [if_neg (by rw [hw]; simp)]
 
 /-- a file literally named `Manifest` at the top is never compressed implicitly,
     and compression happens iff the uncompressed size reaches the watermark -/
